@@ -484,7 +484,19 @@ impl World {
         let pl = pkt.payload();
         match pkt.proto() {
             PROTO_UDP => {
-                let Ok(u) = decode_udp(pl, &src, &dst) else { return out };
+                // an IP payload may be longer than the UDP length field says: the datagram is what the
+                // length field delimits (checksummed as such), the rest is not part of it
+                let u = match decode_udp(pl, &src, &dst) {
+                    Ok(u) => u,
+                    Err(_) => {
+                        let len = if pl.len() >= 8 { u16::from_be_bytes([pl[4], pl[5]]) as usize } else { 0 };
+                        if len < 8 || len >= pl.len() {
+                            return out;
+                        }
+                        let Ok(u) = decode_udp(&pl[..len], &src, &dst) else { return out };
+                        u
+                    }
+                };
                 for (k, s) in self.socks.iter().enumerate() {
                     if s.kind != Kind::Udp {
                         continue;
